@@ -9,8 +9,10 @@ ID = "C12"
 RULE = ("case = generic SDE (4 noise types, both calculi) x accepted (method, options, Levy mode) x (t0, dt, t1 with "
         "aligned or fractional last step) x two drawn output-time vectors A and B sharing end points (strictly inside "
         "steps, several per step, on grid points, dt larger than gaps) x float32/float64 x ts given as tensor/list/"
-        "tuple/float64-tensor-with-float32-state. Oracles: the Brownian query log equals the grid t_{k+1}=min(t_k+dt,"
-        " ts[-1]) accumulated in ts's dtype and is identical for A and B; ys[0] is y0 bit-exact; outputs at grid times "
+        "tuple/float64-tensor-with-float32-state. Oracles: the Brownian query log is the grid ts[0]+k*dt clipped at ts[-1] "
+        "(8 ulp of slack for accumulate-vs-multiply), contiguous, identical for A, B and ts=[t0,t1]; the grid states equal "
+        "those obtained by the harness stepping the same solver class directly over that grid (independent of "
+        "BaseSDESolver.integrate; 16 eps); ys[0] is y0 bit-exact; outputs at grid times "
         "equal the states of the run whose ts is the grid itself (bit-exact); interior outputs equal the linear "
         "interpolant recomputed from that run (4 ulp); values at times shared by A and B are bit-identical; shape "
         "(len(ts), batch, d) and dtype of y0. Non-trivial = an output strictly inside a step and (two outputs in one "
@@ -49,6 +51,17 @@ def strategy(tier):
     return _case(tier)
 
 
+def enumerate_cases(tier):
+    """Every accepted cell once, with a clipped last step, outputs inside steps and two outputs in one step."""
+    for rnd, spec, combo in solve.enumerate_cells(7001, all_levy=False):
+        dt = rnd.choice([0.1, 0.3, 0.125, 1 / 3])
+        n = rnd.randint(3, 9)
+        yield {"spec": spec, "combo": combo, "time": {"t0": rnd.choice([0.0, 0.1, -0.5]), "t1": 0.0, "dt": dt,
+                                                      "tdtype": spec["dtype"], "_n": n},
+               "fa": [0.37, 0.81], "fb": [0.12, 0.5, 0.93], "shared": [0.6], "grid_picks": [1, 3], "same_step": True,
+               "entropy": rnd.randrange(2 ** 31 - 2), "ts_form": rnd.choice(["tensor", "list", "tuple"])}
+
+
 def _ts_values(case, grid_f, fr):
     t0, t1 = case["time"]["t0"], case["time"]["t1"]
     vals = {t0, t1}
@@ -66,6 +79,9 @@ def _ts_values(case, grid_f, fr):
 def run_case(case):
     import torchsde
     spec, combo, tm = case["spec"], case["combo"], case["time"]
+    if "_n" in tm:                      # enumerated cells: horizon = (n + 0.4) steps, i.e. a clipped last step
+        tm = dict(tm, t1=tm["t0"] + (tm["_n"] + 0.4) * tm["dt"])
+        case = dict(case, time=tm)
     dtype = getattr(torch, spec["dtype"])
     tdtype = torch.float64 if case["ts_form"] == "f64tensor" else dtype
     eps = torch.finfo(dtype).eps
@@ -100,21 +116,54 @@ def run_case(case):
                                 bm=sdes.make_bm(torchsde, spec, t0f, t1f, case["entropy"], levy=combo["levy"]))
         return ys, rec
 
+    def fail(clause, msg):
+        return Result(nontrivial=True, checks=checks, fail=Fail(clause, msg, sig))
+
+    # the grid actually used: the Brownian query log of the plain run over [t0, t1]; it must be the prescribed grid
+    # ts[0] + k dt with the last step clipped (whether the implementation accumulates t_k + dt or multiplies k*dt is its
+    # business: a few ulp of slack), contiguous and strictly increasing
+    _, rec0 = solve_with(torch.stack([grid[0], grid[-1]]))
+    log0 = [(a, b) for a, b, *_ in rec0.log]
+    teps = torch.finfo(tdtype).eps
+    checks += 1
+    ok = len(log0) == len(grid) - 1 and log0[0][0] == t0f and log0[-1][1] == t1f and \
+        all(x[1] == y[0] for x, y in zip(log0[:-1], log0[1:])) and all(a < b for a, b in log0)
+    if ok:
+        ok = all(abs(b - g) <= 8 * teps * max(1.0, abs(g), abs(t0f)) for (_, b), g in zip(log0, grid_f[1:]))
+    if not ok:
+        k = next((i for i, ((_, b), g) in enumerate(zip(log0, grid_f[1:])) if b != g), min(len(log0), len(grid_f) - 1))
+        return fail("step_grid", f"steps taken {log0[:3]}...{log0[-2:]} ({len(log0)} steps) are not the grid ts[0]+k*dt "
+                                 f"clipped at ts[-1] ({len(grid) - 1} steps; first deviation at step {k})")
+    grid_f = [log0[0][0]] + [b for _, b in log0]
+    grid = [torch.tensor(g, dtype=tdtype) for g in grid_f]
     # reference: ts = the grid itself
     ts_grid = torch.stack(grid)
     ys_grid, rec_grid = solve_with(ts_grid)
     log_grid = [(a, b) for a, b, *_ in rec_grid.log]
-    want_log = list(zip(grid_f[:-1], grid_f[1:]))
-
-    def fail(clause, msg):
-        return Result(nontrivial=True, checks=checks, fail=Fail(clause, msg, sig))
-
+    want_log = log0
     checks += 1
     if log_grid != want_log:
-        k = next((i for i, (x, y) in enumerate(zip(log_grid, want_log)) if x != y), min(len(log_grid), len(want_log)))
-        return fail("step_grid", f"Brownian query log deviates from the grid t_k+dt at step {k}: "
-                                 f"{log_grid[k] if k < len(log_grid) else None} vs {want_log[k] if k < len(want_log) else None}"
-                                 f" ({len(log_grid)} vs {len(want_log)} steps)")
+        return fail("step_grid_depends_on_ts", f"steps taken depend on the output times: {len(log_grid)} steps with ts = "
+                                               f"grid vs {len(want_log)} with ts = [t0, t1]")
+    # independent driver: the same solver class stepped by the harness over that grid, state by state (does not use
+    # BaseSDESolver.integrate, so a mislabelled step or a wrong interpolation bracket cannot hide in the reference)
+    from torchsde._core import base_sde, methods as _methods
+    bm_drv = sdes.make_bm(torchsde, spec, t0f, t1f, case["entropy"], levy=combo["levy"])
+    cls = _methods.select(combo["method"], spec["sde_type"])
+    drv = cls(sde=base_sde.ForwardSDE(sde), bm=bm_drv, dt=dt, adaptive=False, rtol=1e-3, atol=1e-3, dt_min=1e-5,
+              options=dict(combo["options"]))
+    with torch.no_grad():
+        state = y0
+        extra = drv.init_extra_solver_state(grid[0], y0)
+        for k in range(len(grid) - 1):
+            state, extra = drv.step(grid[k], grid[k + 1], state, extra)
+            checks += 1
+            scale = max(1.0, float(state.abs().max()))
+            e = float((ys_grid[k + 1] - state).abs().max()) / scale
+            if not e <= 16 * eps:
+                return fail("grid_state_vs_independent_driver",
+                            f"state at grid time {grid_f[k + 1]} (step {k + 1} of {len(grid) - 1}) differs from the state "
+                            f"obtained by stepping the solver directly over the grid: rel {e:.3e}")
     inside = two_in_step = False
     results = {}
     for name, fr in (("A", case["fa"]), ("B", case["fb"])):
